@@ -36,6 +36,7 @@ THEOREMS = [
     "Typedpy.C07.region_example",
     "Typedpy.C07.region_all_dict_example",
     "Typedpy.C07.region_nested_entry_example",
+    "Typedpy.C07.region_enum_everywhere_example",
     "Typedpy.C07.mro_collection_example",
     "Typedpy.C07.camel_idempotent_ascii",
     "Typedpy.C07.mapper_round_trip_region_ascii",
